@@ -511,12 +511,15 @@ def rule_P1_P2(ctx, cname, writer, reader, obj, rid1='P1', rid2='P2', reader_onl
                     ctx.ob(rid2, '%s:key(%s)->%s' % (cname, r.key, r.attr), w.attr == r.attr,
                            r.where, 'key %r written from attribute %r (%s) and restored into %r'
                            % (r.key, w.attr, w.where, r.attr))
-    # every writer key with a direct attribute source is restored (no silently dropped state)
+    # every writer key whose source attribute is mutable run state is restored (no silently
+    # dropped state); keys written from attributes that only constructors assign, or from
+    # derived expressions, are informational and need not be read back
     rkeys = {r.key for r in R}
+    mutable = _mutable_attrs(ctx.program, cname)
     for w in W:
         if w.attr is None or '<dyn>' in w.key:
             continue
-        if w.key in reader_only_keys:
+        if w.key in reader_only_keys or w.attr not in mutable:
             continue
         ok = w.key in rkeys or any(template_match(w.key, k) for k in rkeys)
         ctx.ob(rid1, '%s:restored(%s)' % (cname, w.key), ok, w.where,
@@ -538,6 +541,20 @@ def template_match(template, key):
         return False
     rx = '^' + '.+'.join(re.escape(p) for p in template.split('{}')) + '$'
     return re.match(rx, key.replace('{}', '0')) is not None
+
+
+def _mutable_attrs(prog, cname):
+    """Attributes of class `cname` written by any function other than its constructors."""
+    res = resolver(prog)
+    out = set()
+    for f in prog.functions.values():
+        if f.cls is not None and f.cls.name == cname and f.name in (
+                '__init__', 'compute', 'read', 'train'):
+            continue
+        for c, a, k in res.direct(f).writes:
+            if c == cname:
+                out.add(a)
+    return out
 
 
 def _dyn_match(dkey, key):
